@@ -597,9 +597,6 @@ func checkNackRequests(c *Ctx, rule string) {
 					if !ok || sub.Op != token.SUB {
 						continue
 					}
-					if !strings.Contains(sub.X.String(), "") {
-						continue
-					}
 					iv := fi.At(sub.Y, b)
 					ivs = iv.String()
 					// the minuend is the packet's seqno
